@@ -16,7 +16,7 @@ func init() {
 	register(&Property{
 		Meta: report.Meta{
 			Property:    "C19",
-			Explanation: "Must-pass-through and who-may-call rules on the encrypted-metadata code: secretbox.Seal/Open are called only from EncryptWithKey/DecryptStringWithKey; Seal is reached only after validateKey succeeded and after io.ReadFull(crypto/rand.Reader, nonce[:]) succeeded on the very nonce array that is passed to Seal and prefixed to the output, with the key array filled by copy from the validated key and the message being the parameter; decryption validates the key, requires len >= 24 (= nonce length), opens data[24:] with nonce data[:24] and returns the plaintext only when Open reports ok; validateKey rejects nil, length != 32 and all-zero keys (decision table); AddEncrypted hands the plaintext to EncryptWithKey only and stores its checked result; the getters decrypt GetBytes(key); the four WithEncryptedMeta* options pass their own key/value/encryption-key parameters to AddEncrypted. Confidentiality and authentication themselves are the contract of NaCl secretbox. (R7) no returned bytes are views into memory given back to a sync.Pool.",
+			Explanation: "Must-pass-through and who-may-call rules on the encrypted-metadata code: secretbox.Seal/Open are called only from EncryptWithKey/DecryptStringWithKey; Seal is reached only after validateKey succeeded and after io.ReadFull(crypto/rand.Reader, nonce[:]) succeeded on the very nonce array that is passed to Seal and prefixed to the output, with the key array filled by copy from the validated key and the message being the parameter; decryption validates the key, requires len >= 24 (= nonce length), opens data[24:] with nonce data[:24] and returns the plaintext only when Open reports ok; validateKey rejects nil, length != 32 and all-zero keys (decision table); AddEncrypted hands the plaintext to EncryptWithKey only and stores its checked result; the getters decrypt GetBytes(key); the four WithEncryptedMeta* options pass their own key/value/encryption-key parameters to AddEncrypted. Confidentiality and authentication themselves are the contract of NaCl secretbox. (R7) no returned bytes are views into memory given back to a sync.Pool. Every failing exit of GetEncryptedString / GetEncryptedBytes is selected by the non-nil error of GetBytes, DecryptStringWithKey or GetEncryptedBytes.",
 			Assumptions: []string{"NaCl secretbox provides confidentiality and authentication", "crypto/rand.Reader is a CSPRNG"},
 			Trusted:     []string{"golang.org/x/crypto/nacl/secretbox", "crypto/rand", "golang.org/x/tools/go/ssa v0.29.0"},
 			NotDecided:  []string{"cryptographic strength", "round-trip equality of the plaintext (runtime value)"},
@@ -33,7 +33,7 @@ func runC19(x *Ctx) {
 	x.C.Rule("C19.R2", "EncryptWithKey: key validated, fresh random nonce, same nonce sealed and prefixed", 5)
 	x.C.Rule("C19.R3", "DecryptStringWithKey: key validated, length >= 24, plaintext only on ok", 6)
 	x.C.Rule("C19.R4", "validateKey: nil / wrong size / all-zero keys refused", 7)
-	x.C.Rule("C19.R5", "plaintext confinement in AddEncrypted; getters decrypt GetBytes", 4)
+	x.C.Rule("C19.R5", "plaintext confinement in AddEncrypted; getters decrypt GetBytes and refuse for nothing else", 6)
 	x.C.Rule("C19.R6", "WithEncryptedMeta* options call AddEncrypted with their own parameters", 4)
 	x.C.Rule("C19.R7", "no decrypted / stored bytes are views into pooled memory", 2)
 	x.poolDiscipline("C19.R7", "pkg/meta", "pkg/meta/internal/crypto")
@@ -288,6 +288,26 @@ func runC19(x *Ctx) {
 			}
 		}
 		x.C.Obl("C19.R5", "decrypts-stored:"+g.name, x.pos(f), "returns the checked result of DecryptStringWithKey(GetBytes(key), encryption key)", ok, detail)
+		// closed world: the getter refuses only when the value cannot be fetched or cannot be decrypted. A further
+		// test on the plaintext (well-formed UTF-8, a size, a prefix) refuses values AddEncrypted accepted under the
+		// very key that sealed them
+		nR, badR := 0, ""
+		for _, p := range x.pathsQuiet(f) {
+			if p.End != paths.EndReturn {
+				continue
+			}
+			if o, _ := p.ErrorOutcome(); o == paths.Success || len(p.Facts) == 0 {
+				continue
+			}
+			nR++
+			last := p.Facts[len(p.Facts)-1]
+			a := last.Atom.String()
+			if !last.Pol && (a == eqs(get+"#1", "const(nil)") || a == eqs(dec+"#1", "const(nil)") || a == eqs(viaBytes+"#1", "const(nil)")) {
+				continue
+			}
+			badR += fmt.Sprintf("%s: refuses on %s\n", x.P.Pos(p.Ret.Pos()), last)
+		}
+		x.C.Obl("C19.R5", "no-other-refusal:"+g.name, x.pos(f), "the getter fails only when GetBytes or DecryptStringWithKey failed", badR == "" && nR > 0, dedupLines(badR))
 	}
 
 	for _, pk := range []string{"token/delegation", "token/invocation"} {
